@@ -9,6 +9,11 @@
     EVERY sequence of up to 4 (thorough: 5) of the 16 operators that its value is the value of an admissible parse tree, and rejects
     the earlier / seeded variants of the continuation test ("leq-after-nested", "always-continue").  The batch oracle binds the
     transcription to the engine: the observed value must be the transcribed walk's value on every recorded event (else model drift).
+(I) spec/QExprParseImpl.tla: the expression PARSER (parseExpressions / getOperation / parseValue / isExpression) at the level of code
+    units with every kind of unit behind the expression (the scanner takes whatever follows `case=` as the quote): TLC checks for every
+    text <= 4 (thorough 5) units over 12 symbols x 7 closing units that an accepted list ends in an item without operator (what evaluate()
+    trusts) and that nothing at or behind end_offset is read; the parser before 47b169e is rejected; every state is replayed through
+    ParseExpressions from an exact-size buffer under ASan (verdict and operator list must be the model's; else drift).
 (B) code -> spec (E5): every 1- and 2-operand expression and a large sample (thorough: all) of the 3-operand expressions over
     10 operands x 16 operators, plus random 4..6-operand expressions with parentheses, in random whitespace / literal spellings,
     through ParseExpressions + Evaluate and through {math:}, {if case=}, <if case=> from exact-size buffers under ASan/UBSan
@@ -113,6 +118,47 @@ def gen(c):
     return cases
 
 
+def parser_stage(c, asan):
+    """(I) QExprParseImpl: the expression parser at the level of code units, with every kind of closing unit behind the expression;
+    TLC: the last item of every accepted (sub-)list has no operator (what evaluate() trusts) and no unit at or behind end_offset is read;
+    the parser before 47b169e is rejected; (E2) every (expression, closing unit) of the bare model is replayed through ParseExpressions
+    from an exact-size buffer under ASan and the accepted operator list must be the model's"""
+    r = c.tlc("QExprParseImpl", "QExprParseImpl_current5" if c.thorough else "QExprParseImpl_current", timeout=3000, xmx="16g")
+    c.expect_holds(r, "QExprParseImpl: EvaluatorSafe, StaysInside (expression inside a template)")
+    n_states = r.distinct
+    r = c.tlc("QExprParseImpl", "QExprParseImpl_bare", timeout=3000, xmx="16g")
+    c.expect_holds(r, "QExprParseImpl: EvaluatorSafe, StaysInside (expression at the start of the buffer)")
+    c.stage("parser-model", distinct_states=n_states + r.distinct)
+    r = c.tlc("QExprParseImpl", "QExprParseImpl_unbounded-lookahead", timeout=900, workers=4)
+    if not r.violated:
+        raise vf.MachineryError("QExprParseImpl_unbounded-lookahead: the parser before 47b169e is not rejected")
+    r = c.tlc("QExprParseImpl", "QExprParseImpl_export4" if c.thorough else "QExprParseImpl_export", timeout=3000, xmx="16g", workers=4)
+    vecs = r.vecs("XP")
+    if len(vecs) < 1000:
+        raise vf.MachineryError("QExprParseImpl export: only %d states" % len(vecs))
+    inp = os.path.join(c.out, "exprparse.txt")
+    with open(inp, "w") as f:
+        for v in vecs:
+            f.write(",".join(str(ord(ch)) for ch in v["e"]) + "\t" + str(ord(v["c"])) + "\n")
+    p = os.path.join(c.out, "exprparse.ndjson")
+    crashes = walk.run_cases(c, asan, "exprparse", inp, p, "exprparse")
+    got = vf.read_ndjson(p)
+    if len(got) + crashes < len(vecs):
+        raise vf.MachineryError("exprparse replay: %d of %d states replayed" % (len(got), len(vecs)))
+    want = {("".join(v["e"]), v["c"]): (v["n"], v["ops"]) for v in vecs}
+    drift = 0
+    for g in got:
+        key = ("".join(chr(u) for u in g["e"]), chr(g["c"]))
+        if key in want and (g["n"], g["ops"]) != want[key]:
+            drift += 1
+            if drift <= 5:      # the engine parses differently from the transcription: the transcription is out of date (not a violation by itself)
+                c.drift.append({"spec": "QExprParseImpl", "expr": key[0], "closer": key[1], "engine": [g["n"], g["ops"]], "model": list(want[key])})
+        if g["n"] > 0 and g["ops"][-1] != "NoOp":
+            c.violation("exprparse accepted list ends in an operator: expr=%r closer=%r ops=%s" % (key[0], key[1], g["ops"]), {"kind": "replay", "event": g})
+    c.count(n_eval=len(got), validated=len(got) - drift)
+    c.stage("parser-replay", states=len(vecs), crashes=crashes, drift=drift)
+
+
 def main():
     c = vf.Check("C04")
     (asan,) = c.build("h_template.asan")
@@ -123,6 +169,7 @@ def main():
         r = c.tlc("QExprImpl", cfg, timeout=900, workers=4)
         if not r.violated:
             raise vf.MachineryError("%s: the earlier / seeded continuation test is not rejected" % cfg)
+    parser_stage(c, asan)
     cases = gen(c)
     inp = os.path.join(c.out, "exprs.txt")
     with open(inp, "w") as f:
